@@ -269,7 +269,7 @@ Proof.
   intros Hp Hc Hs Hf. unfold stop_after, bad. now rewrite Hp, Hc, (Hs t Hf).
 Qed.
 
-Lemma reason_j_finally g order exc : Ord g -> Reason g -> Reason (j_finally g order exc).
+Lemma reason_j_finally g order exc : Once g -> Reason g -> Reason (j_finally g order exc).
 Proof.
   intros Ho Hr. unfold j_finally. cbv zeta.
   set (g0 := upd_joiner g (pc g) true (granted g) (wake g) (must_cancel g) exc (unfinished g) (joined g)
@@ -287,7 +287,7 @@ Proof.
     + right. right. cbn [pending doneq upd_joiner]. rewrite E7, E3. auto.
 Qed.
 
-Lemma j_loop_reason order dq : forall g, doneq g = dq -> Quiet g -> Ord g ->
+Lemma j_loop_reason order dq : forall g, doneq g = dq -> Quiet g -> Once g ->
   pc (j_loop dq g order) = JNextDone \/ Reason (j_loop dq g order).
 Proof.
   induction dq as [|t rest IH]; intros g Hd Hq Ho; cbn [j_loop]; cbv zeta.
@@ -296,28 +296,28 @@ Proof.
     + destruct Hq as [Q1 _ _ _]. rewrite Hd in Q1. cbn in Q1. rewrite Q1. cbn [Nat.eqb]. left. reflexivity.
   - cbn [negb andb]. pose proof Hq as [Q1 Q2 Q3 Q4]. rewrite Hd in Q1. cbn [length] in Q1. rewrite Q1. cbn [Nat.eqb].
     set (g1 := upd_group g (pending g) (daemons g) (doneq g) (S (length rest) - 1)).
-    assert (Ho1 : Ord g1) by (apply (ord_same g); auto).
-    assert (Ho3 : Ord (consume g1 t rest)) by (apply consume_ord; auto).
+    assert (Ho1 : Once g1) by (apply (once_same g); auto).
+    assert (Ho3 : Once (consume g1 t rest)) by (apply consume_once; auto).
     assert (Hq3 : Quiet (consume g1 t rest)) by (split; cbn; auto; lia).
     destruct (stop_after (consume g1 t rest) t) eqn:Es.
     + right. apply reason_j_finally; auto. right. left. exists (consumed g), t. split; [reflexivity|exact Es].
     + apply IH; auto.
 Qed.
 
-Lemma join_entry_reason g order : Quiet g -> Ord g ->
+Lemma join_entry_reason g order : Quiet g -> Once g ->
   pc (join_entry g order) = JNextDone \/ Reason (join_entry g order).
 Proof.
   intros Hq Ho. unfold join_entry. cbv zeta. cbn [pol upd_joiner].
   set (g0 := upd_joiner g (pc g) true (granted g) (wake g) (must_cancel g) false (unfinished g) (joined g)
                         (completed g) (consumed g)).
   assert (Hq0 : Quiet g0) by (destruct Hq as [Q1 Q2 Q3 Q4]; split; cbn; auto).
-  assert (Ho0 : Ord g0) by (apply (ord_same g); auto).
+  assert (Ho0 : Once g0) by (apply (once_same g); auto).
   destruct (pol g) eqn:Epol; try (apply j_loop_reason; auto; fail).
   right. apply reason_j_finally; auto. left. exact Epol.
 Qed.
 
 (* the step of the joining task in which join's loop is left without a cancellation *)
-Theorem loop_left_only_by_policy g order : PreJ g -> Ord g ->
+Theorem loop_left_only_by_policy g order : PreJ g -> Once g ->
   must_cancel g = false -> wake g <> Some true ->
   (pc g = JNot \/ pc g = JCancelRem \/ pc g = JNextDone) ->
   let g' := joiner_step g order in
@@ -329,7 +329,7 @@ Proof.
   rewrite Ec.
   set (g0 := upd_joiner g (pc g) (entered g) (granted g) None false (jexc g) (unfinished g) (joined g)
                         (completed g) (consumed g)).
-  assert (Ho0 : Ord g0) by (apply (ord_same g); auto).
+  assert (Ho0 : Once g0) by (apply (once_same g); auto).
   assert (Hq0 : granted g = false -> Quiet g0).
   { intros Hg. rewrite Hg in P1. cbn in P1. split; cbn; auto. lia. }
   change (pc g0) with (pc g).
@@ -349,7 +349,7 @@ Proof.
     rewrite <- Ed.
     match goal with |- context [j_loop (doneq g) ?G order] => destruct (j_loop_reason order (doneq g) G) as [H|H] end; auto.
     + split; cbn; auto. rewrite Ed. cbn in *. lia.
-    + apply (ord_same g); auto.
+    + apply (once_same g); auto.
 Qed.
 
 (* ---------- join never goes on after a member that stops it ---------- *)
@@ -378,13 +378,13 @@ Proof.
   intros x Hx. apply counts_stable; auto.
 Qed.
 
-Lemma np_stable g g' : Ord g -> NP g -> pol g' = pol g -> MemStable g g' -> consumed g' = consumed g -> NP g'.
+Lemma np_stable g g' : Once g -> NP g -> pol g' = pol g -> MemStable g g' -> consumed g' = consumed g -> NP g'.
 Proof.
   intros Ho Hn Hp Hs Hc pre t post He Hpost. rewrite Hc in He. rewrite <- (Hn pre t post He Hpost).
   apply stop_at_stable; auto. intros x Hx. apply (consumed_finished g Ho). rewrite He.
   apply in_app_or in Hx as [Hx|[<-|[]]]; apply in_or_app; [now left|right; now left].
 Qed.
-Lemma lastok_stable g g' : Ord g -> LastOk g -> pol g' = pol g -> MemStable g g' -> consumed g' = consumed g -> LastOk g'.
+Lemma lastok_stable g g' : Once g -> LastOk g -> pol g' = pol g -> MemStable g g' -> consumed g' = consumed g -> LastOk g'.
 Proof.
   intros Ho Hn Hp Hs Hc pre t He. rewrite Hc in He. rewrite <- (Hn pre t He).
   apply stop_at_stable; auto. intros x Hx. apply (consumed_finished g Ho). now rewrite He.
@@ -412,18 +412,18 @@ Qed.
 Definition Post (g : tg) : Prop :=
   NP g /\ (pc g = JNextDone -> LastOk g) /\ ((pc g = JNot \/ pc g = JCancelRem) -> consumed g = []).
 
-Lemma cancel_tasks_np G ord : Ord G -> NP G -> NP (cancel_tasks G ord).
+Lemma cancel_tasks_np G ord : Once G -> NP G -> NP (cancel_tasks G ord).
 Proof.
   intros Ho Hn. destruct (cancel_tasks_semfields G ord) as (_ & _ & _ & _ & _ & _ & _ & E8 & _ & E10).
   apply (np_stable G); auto. apply frame_memstable, cancel_tasks_frame.
 Qed.
 
-Lemma j_finally_post g order exc : Ord g -> NP g -> Post (j_finally g order exc).
+Lemma j_finally_post g order exc : Once g -> NP g -> Post (j_finally g order exc).
 Proof.
   intros Ho Hn. unfold j_finally. cbv zeta.
   set (g0 := upd_joiner g (pc g) true (granted g) (wake g) (must_cancel g) exc (unfinished g) (joined g)
                         (completed g) (consumed g)).
-  assert (Ho0 : Ord g0) by (apply (ord_same g); auto).
+  assert (Ho0 : Once g0) by (apply (once_same g); auto).
   assert (Hn0 : NP g0) by (apply (np_stable g); auto; (apply memstable_members; reflexivity)).
   match goal with |- context [match ?x with [] => _ | _ => _ end] => destruct x as [|x0 xs] end.
   - split; [apply (np_stable g0); auto; (apply memstable_members; reflexivity)|]. split; [discriminate|intros [H|H]; discriminate].
@@ -432,7 +432,7 @@ Proof.
     intros pre t post He Hpost. apply (H1 pre t post He Hpost).
 Qed.
 
-Lemma j_loop_post order dq : forall g, doneq g = dq -> Ord g -> CF g -> NP g -> LastOk g ->
+Lemma j_loop_post order dq : forall g, doneq g = dq -> Once g -> CF g -> NP g -> LastOk g ->
   Post (j_loop dq g order).
 Proof.
   induction dq as [|t rest IH]; intros g Hd Ho Hc Hn Hl; cbn [j_loop]; cbv zeta.
@@ -440,18 +440,18 @@ Proof.
     + split; [apply (np_stable g); auto; (apply memstable_members; reflexivity)|].
       split; [intros _; apply (lastok_stable g); auto; (apply memstable_members; reflexivity)|intros [H|H]; discriminate].
     + apply j_finally_post.
-      * match goal with |- context [if ?b then _ else _] => destruct b end; [apply (ord_same g); auto|exact Ho].
+      * match goal with |- context [if ?b then _ else _] => destruct b end; [apply (once_same g); auto|exact Ho].
       * match goal with |- context [if ?b then _ else _] => destruct b end;
           [apply (np_stable g); auto; (apply memstable_members; reflexivity)|exact Hn].
   - cbn [negb andb]. destruct (semv g =? 0)%nat.
     + split; [apply (np_stable g); auto; (apply memstable_members; reflexivity)|].
       split; [intros _; apply (lastok_stable g); auto; (apply memstable_members; reflexivity)|intros [H|H]; discriminate].
     + set (g1 := upd_group g (pending g) (daemons g) (doneq g) (semv g - 1)).
-      assert (Ho1 : Ord g1) by (apply (ord_same g); auto).
+      assert (Ho1 : Once g1) by (apply (once_same g); auto).
       assert (Hc1 : CF g1) by exact Hc.
       assert (Hn1 : NP g1) by (apply (np_stable g); auto; (apply memstable_members; reflexivity)).
       assert (Hl1 : LastOk g1) by (apply (lastok_stable g); auto; (apply memstable_members; reflexivity)).
-      assert (Ho3 : Ord (consume g1 t rest)) by (apply consume_ord; auto).
+      assert (Ho3 : Once (consume g1 t rest)) by (apply consume_once; auto).
       assert (Hc3 : CF (consume g1 t rest)) by (apply consume_cf; auto).
       assert (Hn3 : NP (consume g1 t rest)) by (apply np_consume; auto).
       destruct (stop_after (consume g1 t rest) t) eqn:Es.
@@ -460,24 +460,24 @@ Proof.
         apply app_inj_tail in He as [<- <-]. rewrite <- Es. symmetry. apply stop_after_at; auto.
 Qed.
 
-Lemma join_entry_post g order : Ord g -> CF g -> consumed g = [] -> Post (join_entry g order).
+Lemma join_entry_post g order : Once g -> CF g -> consumed g = [] -> Post (join_entry g order).
 Proof.
   intros Ho Hc He. unfold join_entry. cbv zeta. cbn [pol upd_joiner].
   set (g0 := upd_joiner g (pc g) true (granted g) (wake g) (must_cancel g) false (unfinished g) (joined g)
                         (completed g) (consumed g)).
-  assert (Ho0 : Ord g0) by (apply (ord_same g); auto).
+  assert (Ho0 : Once g0) by (apply (once_same g); auto).
   assert (Hn0 : NP g0) by (intros pre t post E; cbn in E; rewrite He in E; destruct pre; discriminate).
   assert (Hl0 : LastOk g0) by (intros pre t E; cbn in E; rewrite He in E; destruct pre; discriminate).
   destruct (pol g); [apply j_loop_post|apply j_loop_post|apply j_loop_post|apply j_finally_post]; auto.
 Qed.
 
-Lemma joiner_step_post g order : Ord g -> CF g -> Post g -> Post (joiner_step g order).
+Lemma joiner_step_post g order : Once g -> CF g -> Post g -> Post (joiner_step g order).
 Proof.
   intros Ho Hc (Hn & Hl & He). unfold joiner_step. cbv zeta.
   set (cancelled := must_cancel g || match wake g with Some true => true | _ => false end).
   set (g0 := upd_joiner g (pc g) (entered g) (granted g) None false (jexc g) (unfinished g) (joined g)
                         (completed g) (consumed g)).
-  assert (Ho0 : Ord g0) by (apply (ord_same g); auto).
+  assert (Ho0 : Once g0) by (apply (once_same g); auto).
   assert (Hc0 : CF g0) by exact Hc.
   assert (Hn0 : NP g0) by (apply (np_stable g); auto; (apply memstable_members; reflexivity)).
   assert (Hended : forall c e j en gr wk mc je unf jd,
@@ -499,12 +499,12 @@ Proof.
       [apply join_entry_post; auto|apply Hcancel; auto; discriminate].
   - specialize (Hl eq_refl). destruct cancelled.
     + apply j_finally_post.
-      * destruct (granted g0); apply (ord_same g0); auto.
+      * destruct (granted g0); apply (once_same g0); auto.
       * destruct (granted g0); apply (np_stable g0); auto; (apply memstable_members; reflexivity).
     + unfold g0. cbn [doneq upd_joiner]. destruct (doneq g) eqn:Ed.
-      * apply j_finally_post; [apply (ord_same g); auto|apply (np_stable g); auto; (apply memstable_members; reflexivity)].
+      * apply j_finally_post; [apply (once_same g); auto|apply (np_stable g); auto; (apply memstable_members; reflexivity)].
       * rewrite <- Ed. apply j_loop_post; auto;
-          try (apply (ord_same g); auto; fail);
+          try (apply (once_same g); auto; fail);
           try (apply (np_stable g); auto; apply memstable_members; reflexivity);
           try (apply (lastok_stable g); auto; apply memstable_members; reflexivity).
   - assert (Hnil : consumed g0 = []) by (apply He; now right).
@@ -534,12 +534,12 @@ Proof.
     + destruct (pop_jfields (upd_queue g rest) t) as (_ & _ & -> & _). reflexivity.
 Qed.
 
-Lemma step_post g l : fresh_label l = true -> Ord g -> CF g -> Post g -> Post (step g l).
+Lemma step_post g l : Once g -> CF g -> Post g -> Post (step g l).
 Proof.
-  intros Hl Ho Hc Hp. destruct (joiner_runs g l) eqn:Ej.
+  intros Ho Hc Hp. destruct (joiner_runs g l) eqn:Ej.
   - destruct l as [| | | | |h order]; try discriminate. cbn in Ej. cbn [step].
     destruct (queue g) as [|[c|] rest] eqn:Eq; try discriminate. cbv zeta.
-    assert (Ho1 : Ord (upd_queue g rest)) by (apply (ord_same g); auto; cbn; now rewrite Eq).
+    assert (Ho1 : Once (upd_queue g rest)) by (apply (once_same g); auto; unfold yielded; cbn; now rewrite Eq).
     apply joiner_step_post; [exact Ho1|exact Hc|exact Hp].
   - destruct (step_frame g l) as (H1 & H2 & H3). destruct (H3 Ej) as [E1 E2].
     pose proof (nonjoiner_pc g l Ej) as Epc. destruct Hp as (Hn & Hk & He).
@@ -547,38 +547,38 @@ Proof.
     split; [intros E; apply (lastok_stable g); auto|exact He].
 Qed.
 
-Theorem reachable_post p m ls : forallb fresh_label ls = true ->
-  Ord (run p m ls) /\ CF (run p m ls) /\ Post (run p m ls).
+Theorem reachable_post p m ls :
+  Once (run p m ls) /\ CF (run p m ls) /\ Post (run p m ls).
 Proof.
-  intros Hf. unfold run.
-  assert (H0 : Ord (init p m) /\ CF (init p m) /\ Post (init p m)).
-  { split; [apply (reachable_ord p m [] eq_refl)|]. split; [reflexivity|].
+  unfold run.
+  assert (H0 : Once (init p m) /\ CF (init p m) /\ Post (init p m)).
+  { split; [apply (reachable_once p m [])|]. split; [reflexivity|].
     split; [intros pre t post E; destruct pre; discriminate|].
     split; [intros _ pre t E; destruct pre; discriminate|reflexivity]. }
-  revert H0 Hf. generalize (init p m). induction ls as [|l ls IH]; intros g Hg Hf; cbn [fold_left]; [exact Hg|].
-  cbn in Hf. apply andb_true_iff in Hf as [Hf1 Hf2]. apply IH; auto. destruct Hg as (Ho & Hc & Hp).
-  split; [now apply step_ord|]. split; [now apply step_cf|now apply step_post].
+  revert H0. generalize (init p m). induction ls as [|l ls IH]; intros g Hg; cbn [fold_left]; [exact Hg|].
+  apply IH; auto. destruct Hg as (Ho & Hc & Hp).
+  split; [now apply step_once|]. split; [now apply step_cf|now apply step_post].
 Qed.
 
 (* the theorem about leaving the loop, for every reachable state in which the joining task is
    about to run without a cancellation pending *)
-Theorem reachable_loop_left_by_policy p m ls h order rest : forallb fresh_label ls = true ->
+Theorem reachable_loop_left_by_policy p m ls h order rest :
   let g := run p m ls in
   queue g = HJoiner :: rest -> must_cancel g = false -> wake g <> Some true ->
   (pc g = JNot \/ pc g = JCancelRem \/ pc g = JNextDone) ->
   let g' := step g (LRun h order) in
   pc g' = JNextDone \/ pc g' = JCancelRem \/ Reason g'.
 Proof.
-  intros Hf g Hq Hm Hw Hpc. cbv zeta. cbn [step]. rewrite Hq. cbv zeta.
+  intros g Hq Hm Hw Hpc. cbv zeta. cbn [step]. rewrite Hq. cbv zeta.
   pose proof (reachable_sem p m ls) as [S1 S2 S3 S4]. fold g in S1, S2, S3, S4.
-  pose proof (reachable_ord p m ls Hf) as Ho. fold g in Ho.
+  pose proof (reachable_once p m ls) as Ho. fold g in Ho.
   rewrite Hq in S4. cbn in S4.
   apply loop_left_only_by_policy; auto.
   - split; cbn; auto.
     + intros Hg. apply S2. exact Hg.
     + intros E. rewrite E in S4. discriminate.
     + destruct (wake g); [injection S4 as S4; exact S4|discriminate].
-  - apply (ord_same g); auto. cbn. now rewrite Hq.
+  - apply (once_same g); auto. unfold yielded. cbn. now rewrite Hq.
 Qed.
 
 (* ---------- the decisions of join's loop, against the table probed on the running class ---------- *)
